@@ -76,11 +76,14 @@ def gen_case(rng, supervised, diagonal):
         # the user's init array has been used by an earlier fit (same object): the budget is still that of the requested init
         gen.MMC(**dict(kw, max_iter=5)).fit(pairs.copy(), lab.copy())
         ev['init_array_used_before'] = True
+      if not supervised:
+        est0 = gen.MMC(**kw)
+        arg0, ev['how'] = gen.prepare_tuples_via(rng, est0, X, idx, lab)       # (an earlier fit through another array happens here)
       with FDProbe() as pr:
         if supervised:
           est = gen.MMC_Supervised(n_constraints=n_c, **kw).fit(X.copy(), y.copy())
         else:
-          est = gen.MMC(**kw).fit(pairs.copy(), lab.copy())
+          est = est0.fit(arg0, lab.copy())
       if init_kind == 'array':
         # the init option is a MATRIX: the same numbers in a plain C-ordered float64 copy must give the same model
         kc = dict(kw, init=np.array(init, dtype=float, order='C'))
